@@ -179,21 +179,62 @@ def run(tier, seed, only=None):
 
 
 def multisection(rep, tier, timeout):
+    multisection_case(rep, tier, timeout, True, 3 if tier == "quick" else 4, None)
+    # full-span multi-section surfaces: sections left of, and right of, the root section
+    multisection_case(rep, tier, timeout, False, 3, 1)
+    multisection_case(rep, tier, timeout, False, 4, 1)
+    if tier != "quick":
+        multisection_case(rep, tier, timeout, False, 2, 0)
+        multisection_case(rep, tier, timeout, False, 4, 2)
+
+
+def multisection_case(rep, tier, timeout, symmetry, nsec, root):
     import openaerostruct.geometry.geometry_mesh_gen as mg
     from openaerostruct.geometry.geometry_unification import unify_mesh
 
     rep.encode(mg.generate_mesh, mg.generate_section_geometry, mg.stitch_section_geometry, mg.output_oas_mesh, unify_mesh)
-    nsec = 3 if tier == "quick" else 4
     taper = symarray("taper", (nsec,))
     spans = symarray("secspan", (nsec,))
     tsw = symarray("tansweep", (nsec,))
     rc = var("root_chord")
     from symoas.sym import atan
     assume = [gt(rc, 0)] + [gt(t, 0) for t in taper] + [lt(t, 2) for t in taper] + [gt(b, 0) for b in spans]
-    surface = {"num_sections": nsec, "symmetry": True, "taper": taper, "span": spans,
+    surface = {"num_sections": nsec, "symmetry": symmetry, "taper": taper, "span": spans,
                "sweep": np.array([atan(t) for t in tsw], dtype=object), "root_chord": rc, "nx": 2, "ny": np.array([2, 3, 2, 3][:nsec])}
-    with symbolic_numpy():
-        paths = execute.explore(lambda: mg.generate_mesh(surface), assume + [ne(t, 1) for t in taper])
+    if not symmetry:
+        surface["root_section"] = root
+    rootsec = nsec - 1 if symmetry else root
+    label = "multi-section generate_mesh/unify (%s, %d sections%s" % ("symmetric half" if symmetry else "full span", nsec, "" if symmetry else ", root section %d" % root)
+
+    def numeric_surface(envf):
+        num = lambda a: np.array([float(evalf([S(x)], envf)[S(x).nid]) for x in np.asarray(a, dtype=object).ravel()]).reshape(np.shape(a))
+        return dict(surface, taper=num(taper), span=num(spans), sweep=np.arctan(num(tsw)), root_chord=float(num(rc)))
+
+    try:
+        with symbolic_numpy():
+            paths = execute.explore(lambda: mg.generate_mesh(surface), assume + [ne(t, 1) for t in taper])
+    except execute.ForkBudgetExceeded:
+        raise
+    except Exception as e:
+        # the generator does not get through a valid description at all: confirm on floats and report
+        envf = model.FillEnv({})
+        envf.update({"root_chord": 1.5})
+        envf.update({"taper[%d]" % k: 0.8 - 0.1 * k for k in range(nsec)})
+        envf.update({"secspan[%d]" % k: 1.0 + 0.5 * k for k in range(nsec)})
+        envf.update({"tansweep[%d]" % k: 0.1 * (k + 1) for k in range(nsec)})
+        rep.counts["obligations"] += 1
+        rep.counts["nontrivial"] += 1
+        rep.counts["candidates"] += 1
+        try:
+            mg.generate_mesh(numeric_surface(envf))
+            rep.not_reproduced.append({"id": label, "why": "symbolic execution raised %r but the real call on floats succeeds" % (e,)})
+            rep.errors.append("%s): symbolic execution raised %r" % (label, e))
+        except Exception as e2:
+            rep.violation("multi-section: the generator returns a mesh for every valid section list (%s)" % ("symmetric half" if symmetry else "full span, %d sections right of the root" % (nsec - 1 - root)),
+                          "generate_mesh raises %r for %d sections, root section %s, symmetry=%s" % (e2, nsec, root, symmetry),
+                          {"group": label, "env": dict(envf), "crash": True, "symmetry": symmetry, "nsec": nsec, "root": root})
+        rep.log("%-52s generator raised %r" % (label + ")", e))
+        return
     obs = []
     for p in paths:
         mesh, secs = p.result
@@ -207,17 +248,19 @@ def multisection(rep, tier, timeout):
                     obs.append(oblig.Ob("edge sec%d/sec%d [%d,%d]" % (k, k + 1, i, c), lhs=secs[k][i, -1, c], rhs=secs[k + 1][i, 0, c], assume=pa,
                                         meta={"family": "multi-section meshes join with coincident edges"}))
         # requested root chord and per-section taper: the chord at the inboard edge of section k is the root chord times the
-        # tapers of all sections inboard of it, the chord at its outboard edge that times its own taper
-        # (sections are numbered tip -> root on the symmetric half: the last one is the root section)
-        c_in = rc
-        for k in range(nsec - 1, -1, -1):
-            obs.append(oblig.Ob("chord sec%d inboard" % k, lhs=secs[k][-1, -1, 0] - secs[k][0, -1, 0], rhs=c_in, assume=pa,
-                                meta={"family": "section chords follow the requested root chord and tapers"}))
-            c_in = c_in * taper[k]
-            obs.append(oblig.Ob("chord sec%d outboard" % k, lhs=secs[k][-1, 0, 0] - secs[k][0, 0, 0], rhs=c_in, assume=pa,
-                                meta={"family": "section chords follow the requested root chord and tapers"}))
-            obs.append(oblig.Ob("span sec%d" % k, lhs=secs[k][0, -1, 1] - secs[k][0, 0, 1], rhs=spans[k], assume=pa,
-                                meta={"family": "section spans are the requested ones"}))
+        # tapers of all sections between it and the root, the chord at its outboard edge that times its own taper
+        # (sections are numbered left -> right; left of the root the inboard edge is the last column, right of it the first)
+        for side, order in (("left", range(rootsec, -1, -1)), ("right", range(rootsec + 1, nsec))):
+            c_in = rc if side == "left" else rc
+            for k in order:
+                inb, outb = (-1, 0) if side == "left" else (0, -1)
+                obs.append(oblig.Ob("chord sec%d inboard" % k, lhs=secs[k][-1, inb, 0] - secs[k][0, inb, 0], rhs=c_in, assume=pa,
+                                    meta={"family": "section chords follow the requested root chord and tapers"}))
+                c_in = c_in * taper[k]
+                obs.append(oblig.Ob("chord sec%d outboard" % k, lhs=secs[k][-1, outb, 0] - secs[k][0, outb, 0], rhs=c_in, assume=pa,
+                                    meta={"family": "section chords follow the requested root chord and tapers"}))
+                obs.append(oblig.Ob("span sec%d" % k, lhs=secs[k][0, -1, 1] - secs[k][0, 0, 1], rhs=spans[k], assume=pa,
+                                    meta={"family": "section spans are the requested ones"}))
         # unifying the sections reproduces the contiguous surface node for node
         with symbolic_numpy():
             uni = symify(unify_mesh([{"mesh": s} for s in secs], shift_uni_mesh=False))
@@ -232,12 +275,11 @@ def multisection(rep, tier, timeout):
         for i in range(mesh.shape[0] - 1):
             for j in range(mesh.shape[1]):
                 obs.append(oblig.Ob("x increases [%d,%d]" % (i, j), cond=le(mesh[i + 1, j, 0], mesh[i, j, 0]), assume=pa, meta={"family": "x increases chordwise (multi-section)"}))
+
     def replay(ob, env):
-        # the real generator on floats at the witness; the obligation's two sides are re-measured on its output by
-        # evaluating them with the mesh symbols replaced ... simpler: re-run the same measurement code numerically
+        # the real generator on floats at the witness; the clause of the obligation's family is re-measured on its output
         envf = model.FillEnv(env)
-        num = lambda a: np.array([float(evalf([S(x)], envf)[S(x).nid]) for x in np.asarray(a, dtype=object).ravel()]).reshape(np.shape(a))
-        surf = dict(surface, taper=num(taper), span=num(spans), sweep=np.arctan(num(tsw)), root_chord=float(num(rc)))
+        surf = numeric_surface(envf)
         rmesh, rsecs = mg.generate_mesh(surf)
         runi = unify_mesh([{"mesh": x} for x in rsecs], shift_uni_mesh=False)
         fam = ob.meta["family"]
@@ -248,15 +290,17 @@ def multisection(rep, tier, timeout):
                 if d > 1e-9:
                     bad.append("sections %d and %d do not share an edge (gap %.3g)" % (k, k + 1, d))
         elif "chords" in fam or "spans" in fam:
-            c = surf["root_chord"]
-            for k in range(nsec - 1, -1, -1):
-                got = (rsecs[k][-1, -1, 0] - rsecs[k][0, -1, 0], rsecs[k][-1, 0, 0] - rsecs[k][0, 0, 0])
-                want = (c, c * surf["taper"][k])
-                c = want[1]
-                if model.differs(got[0], want[0]) or model.differs(got[1], want[1]):
-                    bad.append("section %d chords %.6g -> %.6g, requested %.6g -> %.6g" % (k, got[0], got[1], want[0], want[1]))
-                if model.differs(rsecs[k][0, -1, 1] - rsecs[k][0, 0, 1], surf["span"][k]):
-                    bad.append("section %d span %.6g, requested %.6g" % (k, rsecs[k][0, -1, 1] - rsecs[k][0, 0, 1], surf["span"][k]))
+            for side, order in (("left", range(rootsec, -1, -1)), ("right", range(rootsec + 1, nsec))):
+                c = surf["root_chord"]
+                for k in order:
+                    inb, outb = (-1, 0) if side == "left" else (0, -1)
+                    got = (rsecs[k][-1, inb, 0] - rsecs[k][0, inb, 0], rsecs[k][-1, outb, 0] - rsecs[k][0, outb, 0])
+                    want = (c, c * surf["taper"][k])
+                    c = want[1]
+                    if model.differs(got[0], want[0]) or model.differs(got[1], want[1]):
+                        bad.append("section %d chords %.6g -> %.6g, requested %.6g -> %.6g" % (k, got[0], got[1], want[0], want[1]))
+                    if model.differs(rsecs[k][0, -1, 1] - rsecs[k][0, 0, 1], surf["span"][k]):
+                        bad.append("section %d span %.6g, requested %.6g" % (k, rsecs[k][0, -1, 1] - rsecs[k][0, 0, 1], surf["span"][k]))
         elif "unifying" in fam:
             if runi.shape != rmesh.shape or np.abs(runi - rmesh).max() > 1e-9:
                 bad.append("unify_mesh(sections) differs from the surface mesh")
@@ -269,8 +313,9 @@ def multisection(rep, tier, timeout):
                 bad.append("total extent %.6g vs %.6g" % (rmesh[0, -1, 1] - rmesh[0, 0, 1], surf["span"].sum()))
         return bool(bad), "; ".join(bad) or "real generate_mesh output satisfies the clause at the witness"
 
-    run_obligations(rep, "multi-section generate_mesh/unify (%d sections, %d paths)" % (nsec, len(paths)), obs, timeout, replay=replay,
-                    family=lambda ob: "multi-section: " + ob.meta["family"], box=(0.4, 0.9))
+    fam_tag = "multi-section: " if symmetry else "multi-section (full span): "
+    run_obligations(rep, label + ", %d paths)" % len(paths), obs, timeout, replay=replay,
+                    family=lambda ob: fam_tag + ob.meta["family"], box=(0.4, 0.9))
 
 
 def replay_file(path):
